@@ -40,6 +40,25 @@ Definition strip_final_newline (s : name) : name :=
 Definition matches_ident (start body : list (N * N)) (s : name) : bool :=
   ident_body start body s || ident_body start body (strip_final_newline s).
 
+(* str.startswith(p) *)
+Fixpoint has_prefix (p s : name) : bool :=
+  match p, s with
+  | [], _ => true
+  | a :: p', b :: s' => N.eqb (code a) (code b) && has_prefix p' s'
+  | _ :: _, [] => false
+  end.
+Fixpoint drop_prefix (p s : name) : name :=
+  match p, s with
+  | _ :: p', _ :: s' => drop_prefix p' s'
+  | _, _ => s
+  end.
+(* re.match(r'<literal>\d+$', s) *)
+Definition lit_digits_body (lit s : name) : bool :=
+  has_prefix lit s &&
+  match drop_prefix lit s with [] => false | r => forallb is_digit r end.
+Definition matches_lit_digits (lit s : name) : bool :=
+  lit_digits_body lit s || lit_digits_body lit (strip_final_newline s).
+
 (* ---- the sanitizer as a function of the PRESENTATION ORDER ---- *)
 Definition smap := list (name * name).
 
@@ -60,6 +79,15 @@ Definition varname (m : smap) (s : name) : name :=
 (* the two presentation disciplines *)
 Definition present_set_order (l : list name) : list name := l.                 (* pinned source *)
 Definition present_sorted (l : list name) : list name := sort_by (fun s => s) str_ltb l.  (* F15 repaired *)
+
+(* ---- the name a memory-write ('@') net is sorted by in _net_sorted ---- *)
+Definition space : ascii := ascii_of_N 32.
+(* pinned source: key = str(n.args[2])  (the write-enable wire only) *)
+Definition memwrite_sortname_enable (we addr data : name) : name := we.
+(* repaired: key = ' '.join(str(n.args[i]) for i in (2, 0, 1)) *)
+Definition memwrite_sortname_all (we addr data : name) : name :=
+  (we ++ space :: addr ++ space :: data)%list.
+Definition no_space (s : name) : bool := forallb (fun c => negb (N.eqb (code c) 32)) s.
 
 (* ---- emitter skeleton: text = concatenation of per-item renderings over a sorted list ---- *)
 Definition emit {A K : Type} (render : A -> name) (key : A -> K) (ltb : K -> K -> bool)
